@@ -141,7 +141,8 @@ class Costs:
     def __init__(self, inputs, output, size_dict, children, removed=(), nslices_of=None):
         self.inputs = [tuple(t) for t in inputs]
         self.output = tuple(output)
-        self.size = dict(size_dict)
+        # exact python integers whatever integer type the caller used for the sizes
+        self.size = {k: int(v) for k, v in size_dict.items()}
         self.children = dict(children)
         self.removed = set(removed)
         self.N = len(self.inputs)
@@ -154,7 +155,7 @@ class Costs:
         self.mult = 1
         nslices_of = nslices_of or {}
         for ix in self.removed:
-            self.mult *= nslices_of.get(ix, self.size[ix])
+            self.mult *= int(nslices_of.get(ix, self.size[ix]))
         self._legs = {}
 
     def count(self, node, ix):
